@@ -7,7 +7,7 @@ import hvhist
 from hvgen import Mirror
 
 PROP_MODULES = ["HvsrVerif.Props.C06", "HvsrVerif.Props.C06Order", "HvsrVerif.Props.C06Spec"]
-BRIDGE_MODULES = ["HvsrVerif.Bridge.C06", "HvsrVerif.Bridge.PyFdwra", "HvsrVerif.Bridge.PyVec"]
+BRIDGE_MODULES = ["HvsrVerif.Bridge.C06", "HvsrVerif.Bridge.PyFdwra", "HvsrVerif.Bridge.PyVec", "HvsrVerif.Bridge.PyVecBounds"]
 
 
 def gen_scatter_case(rng, oid):
